@@ -24,7 +24,8 @@ Python values; a construct the constructor rejects with a documented error is sk
   APPROX -- every one **cross-compiled on every dialect**;
 * DDL: CreateTable / DropTable / CreateColumn / CreateIndex / DropIndex / AddConstraint /
   DropConstraint / comments / sequences / schemas / CreateTableAs / CreateView / PG named
-  types, over random tables (type palette, Identity, Computed, Sequence, server defaults,
+  types / constraints and indexes made of plain column(), literal_column(), text() and
+  string elements, over random tables (type palette, Identity, Computed, Sequence, server defaults,
   quoted names, dialect table / index options).
 * dialects: sqlite, postgresql, mysql, mssql, oracle, default + option variants (old and
   new server versions, mariadb, paramstyles, oracle use_ansi=False, StrCompileDialect);
@@ -70,7 +71,7 @@ def _frame(e):
 
     for fr in reversed(traceback.extract_tb(e.__traceback__)):
         fn = fr.filename
-        if "/sqlalchemy/" in fn:
+        if "/sqlalchemy/" in fn and fr.name != "__getattr__":  # name the caller, not the generic attribute hook
             mod = fn.split("/sqlalchemy/", 1)[1].rsplit(".", 1)[0].replace("/", ".")
             return mod, fr.name, fr.lineno
     return "?", "?", 0
